@@ -2,6 +2,8 @@
 
 // Correspondence harness for the checksum codec (C19). Injected with `go test -overlay`.
 //   ck marshal std=<hex of the wrapped codec's encoding> => out=<hex of myCodec.Marshal> dec=ok|differs|err
+//   ck marshal std=<hex> later=<k> => out=<hex> dec=ok  the result of the k-th previous Marshal, inspected again now: a
+//                                                        result is a value; no later call may change it
 //   ck marshalerr                                         => err len=<n>     (wrapped codec fails)
 //   ck crc hex=<bytes>                                    => crc=<hash/crc32 Castagnoli>
 package main
@@ -122,7 +124,11 @@ func appendVarint(b []byte, v uint64) []byte {
 
 func vMessage(rng *rand.Rand) proto.Message {
 	var m proto.Message
-	switch rng.Intn(8) {
+	switch rng.Intn(10) {
+	case 8: // tiny encodings (1-4 bytes)
+		m = wrapperspb.Int32(int32(rng.Intn(300)))
+	case 9:
+		m = wrapperspb.Bool(rng.Intn(2) == 0)
 	case 7:
 		m = vStruct(rng, 2) // map fields: the encoding order differs from call to call
 	case 0:
@@ -181,7 +187,24 @@ func TestVerifChecksum(t *testing.T) {
 	c := &myCodec{protoCodec: rec}
 	tab := crc32.MakeTable(crc32.Castagnoli)
 
+	type held struct {
+		std, got, snap []byte
+	}
+	var ring []held
 	one := func(m proto.Message) {
+		defer func() {
+			// look again at the results handed out earlier (gRPC keeps them until the frame is written)
+			for i := 0; i+1 < len(ring); i++ {
+				h := ring[i]
+				if len(h.got) <= 64 || !bytes.Equal(h.got, h.snap) {
+					dec := "ok"
+					if !bytes.Equal(h.got, h.snap) {
+						dec = "changed"
+					}
+					fmt.Fprintf(w, "ck marshal std=%s later=%d => out=%s dec=%s\n", hex.EncodeToString(h.std), len(ring)-1-i, hex.EncodeToString(h.got), dec)
+				}
+			}
+		}()
 		got, err2 := c.Marshal(m)
 		std, err1 := rec.last, rec.lastErr // what the wrapped codec handed to myCodec.Marshal
 		if err1 != nil || err2 != nil {
@@ -205,6 +228,10 @@ func TestVerifChecksum(t *testing.T) {
 			}
 		}
 		fmt.Fprintf(w, "ck marshal std=%s => out=%s dec=%s\n", hex.EncodeToString(std), hex.EncodeToString(got), dec)
+		ring = append(ring, held{std: append([]byte{}, std...), got: got, snap: append([]byte{}, got...)})
+		if len(ring) > 4 {
+			ring = ring[1:]
+		}
 	}
 	// fixed corpus first
 	one(&wrapperspb.StringValue{})
